@@ -31,19 +31,25 @@ from ..lib.leangen import lbool, lexcept, llist
 LEVEL = "other"
 CLAIM = dict(
     category="other",
-    text="Partial. Proved (decide over tables regenerated from the running code and the AST of the constructor / save / load "
-    "bodies on every check): metadata() of every image class contains every keyword its constructor consumes (aliases "
-    "height/width/depth -> dimensions) and nothing else; the npz reader rebuilds the saved class with the same metadata "
-    "keys; imread_from_bytes kind rule; the decode permutation is the involution BGR<->RGB and undoes the one of "
-    "OpticalImage.write; suffix dispatch of imread; read_correction resolves and default-constructs every class whose "
-    "save writes class_name; loaded fields are a subset of saved fields for every correction. NOT modelled: np.savez / "
-    "pickle, cv2.imencode / imdecode / imwrite, PNG / TIFF codecs, skimage dtype conversion - the actual round trips "
-    "(images over the whole metadata space, 8/16-bit grey / single-channel / colour byte strings, optical write -> imread, "
-    "the five savable corrections with random configurations) are observed by the oracle only.",
-    note="the deciding part of the statement (bit-identical data after a round trip) rests on the observed round trips; "
-    "the theorems cover DarSIA's dispatch / field bookkeeping",
-    technique="G1 tabulation + G2 AST extraction into Lean tables, decide; differential correspondence for the kind rule; "
-    "round-trip oracle through the real serialisers",
+    text="Partial. Proved: (1) the METADATA ROUND TRIP as a theorem over abstract values - Image.save stores metadata() "
+    "(generated key table), imread_from_npz picks the class from the stored dictionary and re-constructs from it, the "
+    "constructors (modelled: keyword handling of Image / ScalarImage / OpticalImage incl. forced flags, time derived from "
+    "dates, upper-cased colour space) re-derive the attributes: metadata(imread(save(img))) = metadata(img) key by key and "
+    "the class is restored, for every image satisfying the invariant that every constructor call establishes "
+    "(npz_roundtrip_metadata, constructor_establishes_inv, npz_roundtrip_constructed, keys_ok, npz_dispatch_matches_reader); "
+    "the only external contract is that np.savez / pickle return each stored value unchanged. (2) decide over tables "
+    "regenerated from the running code / AST on every check: metadata() completeness and soundness w.r.t. the constructor "
+    "keywords, imread_from_bytes kind rule, decode permutation = involution BGR<->RGB undoing OpticalImage.write, suffix "
+    "dispatch, read_correction resolves every class whose save writes class_name, loaded fields subset of saved fields. "
+    "Ties: constructor keyword provenance (which keyword reaches which attribute, per class) model vs real constructors; "
+    "kind rule / permutation vs real byte strings. NOT modelled: np.savez / pickle value fidelity, cv2.imencode / imdecode / "
+    "imwrite, PNG / TIFF codecs, skimage dtype conversion - the bit-identical round trips (images over the whole metadata "
+    "space, 8/16-bit grey / single-channel / colour byte strings, optical write -> imread, the five savable corrections with "
+    "random configurations) are observed by the oracle only.",
+    note="bit-identical pixel data / values after a round trip rest on the observed round trips; the theorems cover the "
+    "metadata round trip modulo value fidelity of the serialiser, and DarSIA's dispatch / field bookkeeping",
+    technique="Lean 4 proof (parametric round-trip theorem over generated key tables; decide) + G1 tabulation + G2 AST extraction; "
+    "differential correspondence (constructor keyword provenance, kind rule); round-trip oracle through the real serialisers",
 )
 
 KEYS = ["space_dim", "indexing", "dimensions", "name", "height", "width", "depth", "origin", "series", "date",
@@ -418,6 +424,9 @@ def oracle_bytes(ctx, d):
 
 
 def oracle_write(ctx, d, tmp):
+    """OpticalImage.write -> imread returns the same colours: for images holding integer data (exactly) and for images
+    whose data are floats in any of the colour spaces an OpticalImage can be in (RGB, BGR, HSV; within the 8/16-bit
+    quantisation of the file format)"""
     import skimage
 
     for n in range(ctx.pick(300, 3000)):
@@ -427,21 +436,37 @@ def oracle_write(ctx, d, tmp):
         dtype = rnd.choice([np.uint8, np.uint8, np.uint16])
         ext = ".png" if dtype == np.uint8 and rnd.random() < 0.6 else rnd.choice([".tif", ".tiff"])
         arr = r.randint(0, np.iinfo(dtype).max + 1, size=(h, w, 3)).astype(dtype)
-        case = dict(ext=ext, dtype=np.dtype(dtype).name, shape=[h, w, 3])
-        ctx.count(("write", ext, np.dtype(dtype).name, h, w))
-        img = d.OpticalImage(arr.copy(), color_space=rnd.choice(["RGB", "RGB", "BGR"]), dimensions=[1.0, 2.0])
+        held = rnd.choice(["integer", "integer", "float", "float"])
+        space = rnd.choice(["RGB", "RGB", "BGR"]) if held == "integer" else rnd.choice(["RGB", "BGR", "HSV", "HSV"])
+        case = dict(ext=ext, original_dtype=np.dtype(dtype).name, shape=[h, w, 3], data_held_as=held, color_space=space)
+        ctx.count(("write", ext, np.dtype(dtype).name, h, w, held, space))
+        if held == "integer":
+            img = d.OpticalImage(arr.copy(), color_space=space, dimensions=[1.0, 2.0])
+        else:
+            # the way images come out of imread: float data, original dtype remembered; then possibly another colour space
+            img = quiet(lambda: d.OpticalImage(arr.copy(), color_space="RGB", dimensions=[1.0, 2.0]).img_as(float))
+            if not isinstance(img, Raised) and space != "RGB":
+                img = quiet(lambda: img.to_trichromatic(space, return_image=True))
+            if isinstance(img, Raised):
+                continue
+        held_before = img.img.copy()
         p = tmp / f"w_{n % 5}{ext}"
         res = quiet(lambda: (img.write(p), d.imread(p))[1])
+        sig = f"{np.dtype(dtype).name},{held},{space}"
         if isinstance(res, Raised):
-            ctx.fail(f"C18:write-imread({np.dtype(dtype).name},{ext}):raises-{type(res.exc).__name__}", f"write -> imread raises {res.exc!r}", case)
+            ctx.fail(f"C18:write-imread({sig},{ext}):raises-{type(res.exc).__name__}", f"write -> imread raises {res.exc!r}", case)
             continue
-        rgb = img.to_trichromatic("RGB", return_image=True).img
-        want = skimage.img_as_float(rgb)
-        if res.img.shape != want.shape or not np.array_equal(res.img, want):
-            dev = float(np.max(np.abs(res.img - want))) if res.img.shape == want.shape else None
-            ctx.fail(f"C18:write-imread({np.dtype(dtype).name},{ext}):colours", f"colours differ after write -> imread (max deviation {dev})",
-                     dict(case, color_space=img.color_space, max_dev=dev))
-        if not np.array_equal(img.img, arr):
+        rgb = quiet(lambda: img.to_trichromatic("RGB", return_image=True))
+        if isinstance(rgb, Raised):
+            continue
+        want = skimage.img_as_float(rgb.img).astype(np.float64)
+        # integer data: exact; float data: one quantisation step of the file (plus the float32 colour conversion)
+        tol = 0.0 if held == "integer" else 1.5 / (255.0 if dtype == np.uint8 else 65535.0) + 1e-6
+        dev = float(np.max(np.abs(res.img - want))) if res.img.shape == want.shape else None
+        if dev is None or dev > tol:
+            ctx.fail(f"C18:write-imread({sig},{ext}):colours", f"colours differ after write -> imread (max deviation {dev}, allowed {tol:.3g})",
+                     dict(case, max_dev=dev, tolerance=tol, image=np.asarray(img.img).tolist() if img.img.size <= 36 else None))
+        if not np.array_equal(img.img, held_before):
             ctx.fail("C18:write-modifies-image", "OpticalImage.write modified the image", case)
 
 
@@ -586,6 +611,57 @@ def oracle_corrections(ctx, d, tmp):
     ctx.cov["corrections_round_tripped"] = sorted(seen)
 
 
+def constructor_provenance(ctx, d):
+    """tie of `Persist.construct`: which keyword reaches which attribute, per class (sentinel values that differ from every
+    default), against the model evaluated on symbolic values"""
+    rnd = ctx.rng
+    lines, impl = [], []
+    CAND = ["space_dim", "dimensions", "name", "height", "width", "depth", "origin", "series", "date", "reference_date",
+            "time", "scalar", "color_space"]
+    for n in range(ctx.pick(150, 1500)):
+        cls = rnd.choice(["Image", "ScalarImage", "OpticalImage"])
+        given = [k for k in CAND if rnd.random() < 0.4]
+        if cls != "OpticalImage" and "color_space" in given:
+            given.remove("color_space")
+        # array layout that makes the call valid
+        sd = 2 if cls == "OpticalImage" else (3 if "space_dim" in given else 2)
+        if sd == 2 and "depth" in given:
+            given.remove("depth")
+        series = "series" in given
+        scalar_eff = True if cls == "ScalarImage" else (False if cls == "OpticalImage" else "scalar" in given)
+        T = 3
+        shape = (2, 3, 2)[:sd] + ((T,) if series else ()) + ((3,) if cls == "OpticalImage" else ())
+        sent = {
+            "space_dim": 3, "dimensions": [3.5, 2.5, 1.5][:sd], "name": "sentinel", "height": 7.25, "width": 8.25, "depth": 9.25,
+            "origin": [11.0, 12.0, 13.0][:sd], "series": True, "scalar": True if cls == "Image" else (cls != "ScalarImage"),
+            "date": [EPOCH + dt.timedelta(seconds=5 * k) for k in range(T)] if series else EPOCH + dt.timedelta(seconds=77),
+            "reference_date": EPOCH - dt.timedelta(days=1), "time": [1.5 * k + 100 for k in range(T)] if series else 123.5,
+            "color_space": "HSV",
+        }
+        if cls == "ScalarImage":
+            sent["scalar"] = False  # forced to True by the class
+        kw = {k: sent[k] for k in given}
+        arr = np.zeros(shape)
+        img = quiet(lambda: getattr(d, cls)(arr, **kw))
+        lines.append(f"construct {cls} " + " ".join(given))
+        if isinstance(img, Raised):
+            impl.append(repr(img))
+            continue
+        out = []
+        for k in img.metadata():
+            v = getattr(img, k, None)
+            same = False
+            if k in kw:
+                s0 = kw[k]
+                if isinstance(s0, list) and k in ("dimensions", "origin"):
+                    same = np.shape(v) == np.shape(s0) and bool(np.array_equal(np.asarray(v, dtype=float), np.asarray(s0, dtype=float)))
+                else:
+                    same = type(v) is type(s0) and v == s0
+            out.append(f"{k}={'kw' if same else 'other'}")
+        impl.append(" ".join(out))
+    ctx.correspond("constructor-keyword-provenance", lines, impl)
+
+
 def replay(data):
     print("property C18 replay")
     for k in ("signature", "what"):
@@ -617,6 +693,7 @@ def run(ctx):
                          f"(class_name written: {c['writesClassName']}, class known to read_correction: {c['resolvable']})",
                          dict(correction=name, saved_fields=c["saved"], in_AnyCorrection=c["inUnion"]))
         oracle_bytes(ctx, d)
+        constructor_provenance(ctx, d)
         oracle_npz(ctx, d, tmp)
         oracle_write(ctx, d, tmp)
         oracle_corrections(ctx, d, tmp)
